@@ -5,6 +5,10 @@ CONSTANTS
   MaxArgs = 4
   MaxKw = 3
   MaxSteps = 1000
+  MaxRebind = 3
+  CtorModeSet = {"distinct", "equal", "boxed"}
+  CallModeSet = {"distinct", "equal", "asbound"}
+  FlagAtSet = {"init", "call"}
   AsCoded = FALSE
   SimK = 5
 INVARIANT TypeOK
